@@ -740,6 +740,51 @@ def mem_positions(a: SArr):
     return [pp[p] for p in pos]
 
 
+def strided_view_possible(pos, shape) -> bool:
+    """can the elements (given by their memory positions in row-major order of the NEW shape) be addressed as base + sum(index * stride)?"""
+    n = len(pos)
+    if n <= 1:
+        return True
+    st = _strides(shape)
+    strides = []
+    for k, s in enumerate(shape):
+        strides.append(pos[st[k]] - pos[0] if s > 1 else 0)
+    for flat, idx in enumerate(itertools.product(*[range(s) for s in shape])):
+        if pos[flat] != pos[0] + sum(i * d for i, d in zip(idx, strides)):
+            return False
+    return True
+
+
+def keep_layout(like: SArr, new: SArr) -> SArr:
+    """order='K' of np.*_like / np.copy: the new array gets the axis order in memory that `like` has"""
+    if like.ndim < 2 or like.size <= 1 or like.shape != new.shape:
+        return new
+    pos = mem_positions(like)
+    if len(set(pos)) != len(pos):
+        return new              # broadcast views: NumPy falls back to C order
+    st = _strides(like.shape)
+    stride = [abs(pos[st[k]] - pos[0]) if like.shape[k] > 1 else 0 for k in range(like.ndim)]
+    perm = sorted(range(like.ndim), key=lambda k: (-stride[k], k))      # slowest axis first
+    if perm == list(range(like.ndim)):
+        return new
+    base = transpose(new, perm).copy()
+    inv = [perm.index(k) for k in range(like.ndim)]
+    r = transpose(base, inv)
+    r.dtype = new.dtype
+    return r
+
+
+def f_layout(a: SArr) -> SArr:
+    """the same logical array stored in column-major (Fortran) memory order: a non-contiguous view, as einsum / transpose produce"""
+    if a.ndim < 2:
+        return a
+    t = transpose(a).copy()
+    t.dtype = a.dtype
+    r = transpose(t)
+    r.dtype = a.dtype
+    return r
+
+
 def transpose(a: SArr, perm=None):
     perm = list(reversed(range(a.ndim))) if perm is None else [int(p) % a.ndim for p in perm]
     if sorted(perm) != list(range(a.ndim)):
